@@ -21,7 +21,8 @@ func init() {
 		Canaries: func(c *Ctx) []Canary {
 			return []Canary{
 				{Name: "lock-order-inversion-hm-hostmap", File: "handshake_manager.go", Old: "\thm.vpnIps[vpnAddr] = hh\n\thm.metricInitiated.Inc(1)\n", New: "\thm.vpnIps[vpnAddr] = hh\n\tif hm.mainHostMap.QueryVpnAddr(vpnAddr) != nil {\n\t\thm.metricInitiated.Inc(1)\n\t}\n\thm.metricInitiated.Inc(1)\n", Rule: "C34.lock-order"},
-				{Name: "pending-index-read-unlocked", File: "handshake_manager.go", Old: "func (hm *HandshakeManager) QueryIndex(index uint32) *HostInfo {\n\thm.RLock()\n\tdefer hm.RUnlock()\n", New: "func (hm *HandshakeManager) QueryIndex(index uint32) *HostInfo {\n", Rule: "C34.guarded"},
+				{Name: "pending-index-read-unlocked", File: "handshake_manager.go", Old: "func (hm *HandshakeManager) queryIndex(index uint32) *HandshakeHostInfo {\n\thm.RLock()\n\tdefer hm.RUnlock()\n", New: "func (hm *HandshakeManager) queryIndex(index uint32) *HandshakeHostInfo {\n", Rule: "C34.guarded"},
+				{Name: "relays-read-without-list-lock", File: "relay_manager.go", Old: "\trelays := hostinfo.remotes.CopyRelays()\n", New: "\trelays := hostinfo.remotes.relays\n", Rule: "C34.guarded"},
 				{Name: "relay-mutated-in-place", File: "hostmap.go", Old: "func (rs *RelayState) CompleteRelayByIdx(", New: "func (rs *RelayState) markEstablishedInPlace(idx uint32) {\n\trs.RLock()\n\tdefer rs.RUnlock()\n\tif r, ok := rs.relayForByIdx[idx]; ok {\n\t\tr.State = Established\n\t}\n}\n\nfunc (rs *RelayState) CompleteRelayByIdx(", Rule: "C34.relay-immutable"},
 				{Name: "relay-state-write-under-read-lock", File: "hostmap.go", Old: "func (rs *RelayState) DeleteRelay(ip netip.Addr) {\n\trs.Lock()\n\tdefer rs.Unlock()", New: "func (rs *RelayState) DeleteRelay(ip netip.Addr) {\n\trs.RLock()\n\tdefer rs.RUnlock()", Rule: "C34.guarded"},
 				{Name: "relay-used-read-unlocked", File: "connection_manager.go", Old: "\tcm.relayUsedLock.RLock()\n\t// If this already exists, return\n\tif _, ok := cm.relayUsed[localIndex]; ok {\n\t\tcm.relayUsedLock.RUnlock()\n\t\treturn\n\t}\n\tcm.relayUsedLock.RUnlock()\n", New: "\t// If this already exists, return\n\tif _, ok := cm.relayUsed[localIndex]; ok {\n\t\treturn\n\t}\n", Rule: "C34.guarded"},
